@@ -3,6 +3,7 @@
 //	gen --seed S --tier T   write case lines
 //	impl                    read case lines (after lean:prep), run the real code, append " => result"
 //	tables [repo]           print lean/GeomV/C20/Tables.lean from the Go source (pregen hook)
+//	wktgen [repo]           print lean/GeomV/C20/WktGen.lean: the PARAMETER switch, the tail of wkt(), the use of the UNIT factor, the .prj path (pregen hook)
 //	equalgen [repo]         print lean/GeomV/C20/EqualGen.lean: struct shapes and the translated body of `equal` (pregen hook)
 //
 // Line kinds (see lean/GeomV/C20/Main.lean):
@@ -573,6 +574,12 @@ func main() {
 			repo = os.Args[2]
 		}
 		fmt.Print(routeGen(repo))
+	case "wktgen":
+		repo := "/repo"
+		if len(os.Args) > 2 {
+			repo = os.Args[2]
+		}
+		fmt.Print(wktGenOut(repo))
 	case "gen":
 		seed, tier := vproto.SeedTier(os.Args[2:])
 		gen(seed, tier)
